@@ -22,7 +22,7 @@ var tableFuncs = map[string]LGFunction{
 func tableSort(L *LState) int {
 	tbl := L.CheckTable(1)
 	sorter := lValueArraySorter{L, nil, tbl.array[:tbl.Len()]}
-	if L.GetTop() != 1 {
+	if L.GetTop() != 1 && L.Get(2) != LNil {
 		sorter.Fn = L.CheckFunction(2)
 	}
 	sort.Sort(sorter)
